@@ -108,6 +108,13 @@ func (e *Engine) VerifyFunction(fn *ssa.Function, genPanics bool) (u *Unit, err 
 			}
 		}
 	}
+	if c != nil {
+		for _, cl := range c.Clauses {
+			if cl.Kind == "callsite" && cl.visible(e.prop) && !cl.used {
+				u.errs = append(u.errs, fmt.Sprintf("%s callsite %s: no call %s#%d in the function (stale contract)", name, cl.Label, cl.Callee, cl.Loop))
+			}
+		}
+	}
 	return u, nil
 }
 
@@ -158,6 +165,9 @@ func (u *Unit) frameObligations(fn *ssa.Function, c *Contract, fr *Frame, entry,
 	for _, cl := range c.Clauses {
 		if cl.Kind != "modifies" {
 			continue
+		}
+		if cl.ModsAny {
+			return // nothing is promised
 		}
 		if cl.Label != "" && !strings.HasPrefix(cl.Label, "modifies") {
 			label = cl.Label
